@@ -274,20 +274,24 @@ func markCalls(p *Prog, mark *types.Var, name string) InstrPred {
 }
 
 // markRegion: the function and the two call sites between which work begun on `mark` is in flight.
-func markRegion(p *Prog, mark *types.Var) (g *ssa.Function, s1, s2 *ssa.Call) {
+func markRegion(p *Prog, mark *types.Var) (g *ssa.Function, s1 *ssa.Call, s2 ssa.CallInstruction) {
 	begin, done := markCalls(p, mark, "Begin"), markCalls(p, mark, "Done")
 	for _, f := range p.Funcs {
-		var b1, d1 *ssa.Call
+		var b1 *ssa.Call
+		var d1 ssa.CallInstruction
 		for _, b := range f.Blocks {
 			for _, ins := range b.Instrs {
-				call, ok := ins.(*ssa.Call)
+				call, ok := ins.(ssa.CallInstruction)
 				if !ok {
 					continue
 				}
-				rb := begin(call) || p.SiteMayReach(call, begin)
-				rd := done(call) || p.SiteMayReach(call, done)
-				if rb && !rd && b1 == nil {
-					b1 = call
+				if _, isGo := ins.(*ssa.Go); isGo {
+					continue
+				}
+				rb := begin(ins) || p.SiteMayReach(call, begin)
+				rd := done(ins) || p.SiteMayReach(call, done)
+				if c2, isCall := ins.(*ssa.Call); isCall && rb && !rd && b1 == nil {
+					b1 = c2
 				}
 				if rd && !rb {
 					d1 = call
@@ -373,7 +377,8 @@ func runLiveWait(c *Ctx, r *RuleRun) {
 						for _, b2 := range g.Blocks {
 							for _, i2 := range b2.Instrs {
 								call, ok := i2.(*ssa.Call)
-								if !ok || call == s1 || !dominatesInstr(s1, call) || dominatesInstr(s2, call) {
+								_, s2Deferred := s2.(*ssa.Defer)
+								if !ok || call == s1 || ssa.Instruction(call) == ssa.Instruction(s2) || !dominatesInstr(s1, call) || (!s2Deferred && dominatesInstr(s2, call)) {
 									continue
 								}
 								for h := range la.roleReach(p.Callees(call)) {
